@@ -192,16 +192,48 @@ def monoOp : Handler := fun j => do
   let Lneg ← latOf (← j.getObjVal? "Lneg")
   let LM ← latOf (← j.getObjVal? "LM")
   let M := fromContextMonotone K hash Lneg
+  -- the brute-force enumeration over all pairs of subsets is used up to 2^14 pairs (and cross-checked with
+  -- the proved-equivalent enumeration through the complemented table, which is used alone beyond that)
+  let small := t.height + t.width ≤ 14
+  let fast := monoConceptsFast t
+  let mc := if small then monoConcepts t else fast
+  let agree := !small || (nodupPairs fast && sameSet fast mc)
   pure (Json.mkObj [
     ("Lneg_ok", Json.bool (conceptsOK (complement t) Lneg)),
     ("Lneg_cover_ok", Json.bool (coverOK false Lneg.exts (childrenList Lneg))),
     ("model", jLat M),
-    ("LM_ok", Json.bool (nodupPairs LM.pairs && sameSet LM.pairs (monoConcepts t))),
+    ("LM_ok", Json.bool (nodupPairs LM.pairs && sameSet LM.pairs mc)),
     ("LM_cover_ok", Json.bool (coverOK true LM.exts (childrenList LM))),
-    ("n_mono", Json.num (JsonNumber.fromNat (monoConcepts t).length))])
+    ("oracles_agree", Json.bool agree),
+    ("n_mono", Json.num (JsonNumber.fromNat mc.length))])
+
+/-- `{"op":"C06.order","rows","w","transposed":bool,"L":lat,"parents":[[..]],"desc":[[..]],"anc":[[..]],
+     "removed":[[ext,int]..]}` — the implementation's lattice `L` (elements, `children_dict`) together with its
+    `parents_dict`, `descendants_dict`, `ancestors_dict`, judged against the table (the transposed table when
+    `transposed`): every element is a concept; together with the `removed` pairs they are exactly all concepts;
+    children / parents / descendants / ancestors are the lower covers / upper covers / strictly smaller /
+    strictly larger elements of extent inclusion among the listed elements. -/
+def orderOp : Handler := fun j => do
+  let t0 ← getTable j
+  let tr ← getBool j "transposed"
+  let t := if tr then transpose t0 else t0
+  let L ← latOf (← j.getObjVal? "L")
+  let parents ← getNatss j "parents"
+  let desc ← getNatss j "desc"
+  let anc ← getNatss j "anc"
+  let removed ← pairsOf (← j.getObjVal? "removed")
+  let ps := L.pairs
+  let exts := L.exts
+  pure (Json.mkObj [
+    ("all_concepts", Json.bool (ps.all fun p => isConcept t p.1 p.2)),
+    ("complete", Json.bool (nodupPairs (ps ++ removed) && sameSet (ps ++ removed) (allConcepts t))),
+    ("children_ok", Json.bool (coverOK false exts (childrenList L))),
+    ("parents_ok", Json.bool (relOK upperCovers exts parents)),
+    ("desc_ok", Json.bool (relOK strictDown exts desc)),
+    ("anc_ok", Json.bool (relOK strictUp exts anc))])
 
 def handlers : List (String × Handler) :=
   [("C06.ctx", ctxOp), ("C06.deriv", derivOp), ("C06.latT", latTOp), ("C06.perm", permOp),
-   ("C06.mono", monoOp)]
+   ("C06.mono", monoOp), ("C06.order", orderOp)]
 
 end Fca.Drv.C06
